@@ -151,10 +151,18 @@ func replayNative(repo, hdir string, h *Harness, path string) string {
 	done := make(chan struct{})
 	var out []byte
 	go func() { out, _ = cmd.CombinedOutput(); close(done) }()
+	limit := 150 * time.Second
+	if rp.Kind == "unwind" {
+		// a loop whose trip count the input controls: the native run is expected not to finish
+		limit = 20 * time.Second
+	}
 	select {
 	case <-done:
-	case <-time.After(150 * time.Second):
+	case <-time.After(limit):
 		cmd.Process.Kill()
+		if rp.Kind == "unwind" {
+			return "reproduced"
+		}
 		return "replay timed out"
 	}
 	txt := string(out)
@@ -212,7 +220,9 @@ func replayNative(repo, hdir string, h *Harness, path string) string {
 			}
 			return "native run panicked differently: " + res
 		}
-	case "oob", "unwind":
+	case "unwind":
+		return "native run finished within 20 s: the unbounded loop was not confirmed"
+	case "oob":
 		return "symbolic-only"
 	}
 	if res == "" {
